@@ -4,6 +4,7 @@ import (
 	"fmt"
 	"sort"
 	"strings"
+	"sync"
 
 	"github.com/flant/shell-operator/pkg/webhook/conversion"
 )
@@ -269,7 +270,7 @@ func c15Puts(crd string, rules []c15Rule) []c15Query {
 }
 
 func runC15(r *Run) {
-	r.Rule = "search: rule graphs over <= 7 versions whose names contain each other (v1, v1beta1, v11 …), every endpoint spelled with or without the group, shapes = chain+fork, two-way chain, stem+fan (fork after >= 3 steps), diamonds, random density with cycles and self loops, duplicate rules in another spelling; every graph is queried several times in a random order on one stateful real ChainStorage (up to 3 fresh trials, the first one with a wrong-looking answer is reported); thorough adds every one of the 4096 rule graphs over 4 versions x all 12 (from,to) pairs. Application: a real ShellOperator (HookManager, conversionEventHandler, taskHandler, Hook.Run), the real conversion WebhookHandler (chi router, httptest) and bash hooks with a scripted outcome per run (exit 1, garbage, empty response, n objects, unconverted objects, desired version early, failedMessage, and answers whose objects differ: per object converted / at the desired version / left as it came / apiVersion removed / {} / null, the odd one first, in the middle or last, at the last or an earlier step); the declared rules are dealt to 1-3 hooks and, within a hook, to one binding or to 2-3 kubernetesCustomResourceConversion bindings for the same CRD (up/down style), so that a request may need rules of the first, a middle and the last binding of a hook. A search case is non-trivial when some query has a chain of >= 2 rules or a not-found answer on a non-empty graph; an application case when at least one hook ran. distinct = distinct op-line sequences."
+	r.Rule = "search: rule graphs over <= 7 versions whose names contain each other (v1, v1beta1, v11 …), every endpoint spelled with or without the group, shapes = chain+fork, two-way chain, stem+fan (fork after >= 3 steps), diamonds, random density with cycles and self loops, duplicate rules in another spelling; every graph is queried several times in a random order on one stateful real ChainStorage (up to 3 fresh trials, the first one with a wrong-looking answer is reported); thorough adds every one of the 4096 rule graphs over 4 versions x all 12 (from,to) pairs. Application: a real ShellOperator (HookManager, conversionEventHandler, taskHandler, Hook.Run), the real conversion WebhookHandler (chi router, httptest) and bash hooks with a scripted outcome per run (exit 1, garbage, empty response, n objects, unconverted objects, desired version early, failedMessage, and answers whose objects differ: per object converted / at the desired version / left as it came / apiVersion removed / {} / null, the odd one first, in the middle or last, at the last or an earlier step); the declared rules are dealt to 1-3 hooks and, within a hook, to one binding or to 2-3 kubernetesCustomResourceConversion bindings for the same CRD (up/down style), so that a request may need rules of the first, a middle and the last binding of a hook. Overlap cases: 2-3 ConversionReviews in flight on one operator at the same time (the same pair of versions = the same rules and links, the tail of the other's chain, or any other pair; each with its own uid, its own distinguishable objects and its own scripted outcomes; some hooks rate limited with settings.executionMinInterval), the order of their stages (sent and handled up to 'chain found, task and binding context of the step built' / that step's hook run and the next step built / ... / answered) a random merge forced with the yield point conversion.taskBuilt in conversionEventHandler; every hook run (which request's review it was handed, which objects) and every answer is checked against its own request. Concurrent search: 2-4 goroutines start together on a fresh real ChainStorage (up/down chains over 4-7 versions or a random graph), each with 1-3 queries (often the same question at the same time), repeated on 60-120 fresh storages per case; every answer goes through the chain oracle, a runtime fatal error is the observation crash. A search case is non-trivial when some query has a chain of >= 2 rules or a not-found answer on a non-empty graph; an application case when at least one hook ran. distinct = distinct op-line sequences."
 
 	// ---- corpus: the four repaired defects
 	r.One(0, func(c *Case, _ *Rng) {
@@ -340,6 +341,8 @@ func runC15(r *Run) {
 
 	// ---- application, end to end
 	c15E2ERandom(r)
+	c15E2EOverlap(r)
+	c15ConcurrentSearch(r)
 
 	if r.Thorough() {
 		names := []string{"v1", "v1beta1", "v2", "v3"}
@@ -396,4 +399,105 @@ func c15SortedKeys(m map[string]bool) []string {
 	}
 	sort.Strings(ks)
 	return ks
+}
+
+// c15ConcurrentSearch: the webhook server serves ConversionReviews concurrently, so FindConversionChain
+// runs on one ChainStorage from several goroutines at the same time. 2-4 goroutines start together on
+// a fresh (cold) real ChainStorage, each with its own 1-3 queries; repeated on fresh storages. Every
+// answer must be a valid chain / none only if none exists (the same oracle as the sequential search);
+// a Go runtime fatal error (unsynchronised map access) takes the process down and is reported as the
+// observation `crash` of the case. The cases run one at a time so that a crash is attributed to its case.
+func c15ConcurrentSearch(r *Run) {
+	n := r.N(24, 240)
+	r.Cases(700000, n, 1, func(c *Case, rng *Rng) {
+		nv := rng.Range(4, 7)
+		var rules []c15Rule
+		if rng.Chance(60) {
+			// the usual CRD layout: up and down conversions between neighbours — long chains, many passes
+			names := append([]string(nil), c15Names[:nv]...)
+			pct := PickOne(rng, []int{0, 50, 100})
+			for i := 0; i+1 < nv; i++ {
+				rules = append(rules, c15Rule{c15Spell(rng, c15Group, names[i], pct), c15Spell(rng, c15Group, names[i+1], pct)})
+				rules = append(rules, c15Rule{c15Spell(rng, c15Group, names[i+1], pct), c15Spell(rng, c15Group, names[i], pct)})
+			}
+		} else {
+			rules = c15RandomGraph(rng, nv, false)
+		}
+		puts := c15Puts("crd", rules)
+		ng := rng.Range(2, 4)
+		queries := make([][]c15Query, ng)
+		for g := range queries {
+			for k := rng.Range(1, 3); k > 0; k-- {
+				ia, ib := rng.Intn(nv), rng.Intn(nv)
+				if g > 0 && rng.Chance(40) {
+					queries[g] = append(queries[g], queries[0][0]) // the same question at the same time
+					continue
+				}
+				queries[g] = append(queries[g], c15Query{"crd", c15Spell(rng, c15Group, c15Names[ia], 50), c15Spell(rng, c15Group, c15Names[ib], 50)})
+			}
+		}
+		trials := r.N(60, 120)
+		var res [][][]conversion.Rule
+		for t := 0; t < trials; t++ {
+			cs := conversion.NewChainStorage()
+			for _, p := range puts {
+				cs.Get(p.Crd).Put(conversion.Rule{FromVersion: p.From, ToVersion: p.To})
+			}
+			out := make([][][]conversion.Rule, ng)
+			start := make(chan struct{})
+			var wg sync.WaitGroup
+			for g := 0; g < ng; g++ {
+				wg.Add(1)
+				go func(g int) {
+					defer wg.Done()
+					<-start
+					for _, q := range queries[g] {
+						ch := cs.FindConversionChain(q.Crd, conversion.Rule{FromVersion: q.From, ToVersion: q.To})
+						out[g] = append(out[g], append([]conversion.Rule(nil), ch...))
+					}
+				}(g)
+			}
+			close(start)
+			wg.Wait()
+			res = out
+			good := true
+			for g := range queries {
+				for k, q := range queries[g] {
+					if len(out[g][k]) > 0 {
+						good = good && c15Valid(rules, q.From, q.To, out[g][k])
+					} else if c15Trim(q.From) != c15Trim(q.To) && c15Exists(rules, q.From, q.To) {
+						good = false
+					}
+				}
+			}
+			if !good {
+				break // the trial worth reporting; the verdict is Lean's
+			}
+		}
+		for _, p := range puts {
+			c.Op(fmt.Sprintf("put %s %s %s", p.Crd, c15Tok(p.From), c15Tok(p.To)), "ok")
+		}
+		long := false
+		for g := range queries {
+			for k, q := range queries[g] {
+				found, chain := "0", "-"
+				if len(res[g][k]) > 0 {
+					found = "1"
+					rs := make([]c15Rule, len(res[g][k]))
+					for j, rl := range res[g][k] {
+						rs[j] = c15Rule{rl.FromVersion, rl.ToVersion}
+					}
+					chain = c15Rules(rs)
+					long = long || len(rs) >= 2
+				}
+				c.Oracle(fmt.Sprintf("chain crd=%s from=%s to=%s found=%s chain=%s scope=%s", q.Crd, c15Tok(q.From), c15Tok(q.To), found, chain,
+					c15Scope(false, q)))
+				c.Note(fmt.Sprintf("concurrent:chainlen:%d", len(res[g][k])))
+			}
+		}
+		c.Note(fmt.Sprintf("concurrent:goroutines=%d", ng))
+		c.Note("case:concurrent-search")
+		c.Desc = fmt.Sprintf("concurrent search: %d goroutines at the same time on a cold ChainStorage with %d rules, %d fresh storages", ng, len(rules), trials)
+		c.Nontrivial = long
+	})
 }
